@@ -205,10 +205,28 @@ def pyval(text):
         return ("name", text)
 
 
+def c_eval(text: str):
+    """Evaluate the small C expressions the sentinel forms translate to (ternaries, casts, min/max/abs)."""
+    t = text.replace("static_cast<int>(", "int(").replace("static_cast<float>(", "float(")
+    for _ in range(4):
+        t2 = re.sub(r"\(\(([^?]*?)\) \? ([^:]*?) : ([^()]*?)\)", r"((\2) if (\1) else (\3))", t)
+        if t2 == t:
+            break
+        t = t2
+    if not re.fullmatch(r"[0-9a-z_ ().,+\-*<>=!]+", t):
+        raise ValueError(text)
+    return eval(t, {"__builtins__": {}}, {"max": max, "min": min, "abs": abs, "int": int, "float": float})
+
+
 def norm_node_value(v):
     """Turn an IR field (python value or C expression text) into a comparable python value."""
     if isinstance(v, str):
         s = v.strip()
+        if s and s[0] != '"' and re.search(r"[?(*+]", s):
+            try:
+                return c_eval(s)
+            except Exception:  # noqa: BLE001
+                pass
         if len(s) >= 2 and s[0] == '"' and s[-1] == '"':
             return s[1:-1]
         if s in ("true", "false"):
@@ -262,6 +280,10 @@ def find_node(program, clsname):
     return None
 
 
+EXPR_FORMS = ["({v} if 1 == 1 else 0)", "{v} if 2 >= 1 else 7", "max({v}, 3)", "({v} + 0)", "min(999, {v})", "{v} if 3 != 4 else 1",
+              "[{v}, 5][0]" if False else "({v})", "abs(-{v})", "{v} * 1", "int({v}.0)"]
+
+
 def main() -> int:
     rep = Report(PROP)
     use_repo()
@@ -275,10 +297,28 @@ def main() -> int:
         sig = inspect.signature(host)
         vals = {k: pyval(v) for k, v in sp["values"].items()}
         n_ok = n_rej = n_bad = 0
-        for args_text, pos, kw in shapes(sig, sp["values"], sp["skip"], cap):
+        all_shapes = list(shapes(sig, sp["values"], sp["skip"], cap))
+        # the same shapes again with one integer-valued argument written as an equivalent name-free expression
+        # (comparisons, commas and parentheses inside an argument must not confuse the argument splitter)
+        int_params = [f2 for f2, (p2, cv) in sp["fields"].items() if cv is int and isinstance(f2, str)]
+        int_pnames = {sp["fields"][f2][0] for f2 in int_params}
+        extra = []
+        for n_shape, (args_text, pos, kw) in enumerate(all_shapes[:40]):
+            cands = [n for n in (pos + kw) if n in int_pnames and sp["values"][n].isdigit()]
+            if not cands:
+                continue
+            pn = cands[n_shape % len(cands)]
+            form = EXPR_FORMS[(n_shape + len(sp["name"])) % len(EXPR_FORMS)]
+            vals2 = dict(sp["values"])
+            vals2[pn] = form.format(v=sp["values"][pn])
+            parts = [vals2[n] for n in pos] + [f"{n}={vals2[n]}" for n in kw]
+            extra.append((", ".join(parts), pos, kw, {pn: eval(vals2[pn], {"__builtins__": {}}, {"max": max, "min": min, "abs": abs, "int": int})}))
+        rep.count("expression_valued_shapes", len(extra))
+        for shape in [x + ({},) for x in all_shapes] + extra:
+            args_text, pos, kw, override = shape
             # oracle: what Python binds
-            a = [vals[n] for n in pos]
-            k = {n: vals[n] for n in kw}
+            a = [override.get(n, vals[n]) for n in pos]
+            k = {n: override.get(n, vals[n]) for n in kw}
             try:
                 if "self" in sig.parameters:
                     bound = sig.bind(None, *a, **k)
